@@ -140,6 +140,11 @@ void chk_run_case(uint64_t seed, long c, bool is_sweep)
                 for (size_t i = 0; i < W.ncmds; i++) for (size_t j = 0; j < W.cmd[i]->var_num; j++) {
                         const struct cat_variable *v = &W.cmd[i]->var[j];
                         if (v->access == CAT_VAR_ACCESS_WRITE_ONLY) for (size_t b = 0; b < v->data_size; b++) p[b] = chance(30) ? (uint8_t)"\"\\\0\n,"[rn(5)] : (uint8_t)rnd();
+                        if (v->access == CAT_VAR_ACCESS_WRITE_ONLY && v->type <= CAT_VAR_NUM_HEX && chance(40)) {      /* the values at the edges of the type: most negative, most positive, all ones, one */
+                                static const uint8_t pat[4][2] = { { 0x00, 0x80 }, { 0xff, 0x7f }, { 0xff, 0xff }, { 0x00, 0x00 } }; unsigned k = rn(4);
+                                for (size_t b = 0; b < v->data_size; b++) p[b] = pat[k][b + 1 == v->data_size ? 1 : 0];
+                                if (k == 3) p[0] = 1;
+                        }
                         p += v->data_size;
                 }
         }
